@@ -47,6 +47,9 @@ def judge(cfg, out, itersLimit, eps):
         return [out["error"]], []
     msgs = []
     n, calls, order = out["n"], out["calls"], out["order"]
+    if cfg.get("refine"):
+        # evaluations made by the local refinement are not global trials: count what the global search reported
+        calls = min(calls, len(order))
     if calls != n:
         msgs.append(f"[count] objective evaluated {calls} times but {n} global trials reported")
     if n > itersLimit:
@@ -192,6 +195,14 @@ def run(ctx):
                 cfg = dict(N=N, r=r, box="B0" if N != 2 else "B1")
                 plan.append((cfg, a, dd))
                 tasks += [dict(t, alphabet_name=a) for t in tree.tree_tasks(cfg, ALPHABETS[a], dd, split=3)]
+    # coarse evolvent densities (the stop rule is about eps, whatever the grid) and runs with local refinement switched
+    # on (the count and the accuracy are those of the global search)
+    for N in (1, 2):
+        for extra in (dict(density=2), dict(density=4), dict(refine=True)):
+            cfg = dict(N=N, r=2.0, box="B0" if N != 2 else "B1", **extra)
+            dd = d - 1
+            plan.append((cfg, "A013", dd))
+            tasks += [dict(t, alphabet_name="A013") for t in tree.tree_tasks(cfg, ALPHABETS["A013"], dd, split=3)]
     out = pmap(block, tasks)
     runs = hist = classes = nontriv = 0
     outcomes = set()
